@@ -128,6 +128,11 @@ fn shrink_candidates(s: &Scenario, structural: bool) -> Vec<Scenario> {
         c.slow_view = 0;
         out.push(c);
     }
+    if s.slow_drop > 0 {
+        let mut c = s.clone();
+        c.slow_drop = 0;
+        out.push(c);
+    }
     if s.weak_cas_rate > 0 {
         let mut c = s.clone();
         c.weak_cas_rate = 0;
@@ -239,84 +244,104 @@ pub fn minimise(f: &Failure, budget: Duration, search_seeds: u64) -> J {
         None => return f.raw.clone().set("minimise_note", J::str("original did not reproduce in-process; not minimised")),
     };
     let mut steps_done = 0u32;
-    // ---- phase 1: scenario shrinking
-    'outer: loop {
-        if t0.elapsed() > budget * 2 / 3 {
-            break;
-        }
-        let cands = shrink_candidates(&scn, structural);
-        for cand in cands {
+    for round in 0..3 {
+        let before = (scenario_size(&scn), record.len());
+        // ---- phase 1: scenario shrinking
+        'outer: loop {
             if t0.elapsed() > budget * 2 / 3 {
-                break 'outer;
+                break;
             }
-            if scenario_size(&cand) >= scenario_size(&scn) && cand.queue.cap_req == scn.queue.cap_req {
-                continue;
+            let cands = shrink_candidates(&scn, structural);
+            for cand in cands {
+                if t0.elapsed() > budget * 2 / 3 {
+                    break 'outer;
+                }
+                if scenario_size(&cand) >= scenario_size(&scn) && cand.queue.cap_req == scn.queue.cap_req {
+                    continue;
+                }
+                // the old schedule may still fit
+                let mut found = try_replay(prop, class, site, &cand, &cfg, Some(&record), false).map(|x| (x, cfg.clone()));
+                let mut k = 0;
+                while found.is_none() && k < search_seeds && t0.elapsed() <= budget * 2 / 3 {
+                    let mut c2 = cfg.clone();
+                    c2.seed = cfg.seed.wrapping_add(0x9E37 * (k + 1));
+                    c2.replay = None;
+                    found = try_replay(prop, class, site, &cand, &c2, None, true).map(|x| (x, c2));
+                    k += 1;
+                }
+                if let Some(((o, v), c2)) = found {
+                    scn = cand;
+                    cfg = c2;
+                    cfg.replay = None;
+                    record = o.record.clone();
+                    best = (o, v);
+                    steps_done += 1;
+                    continue 'outer;
+                }
             }
-            // the old schedule may still fit
-            let mut found = try_replay(prop, class, site, &cand, &cfg, Some(&record), false).map(|x| (x, cfg.clone()));
-            let mut k = 0;
-            while found.is_none() && k < search_seeds && t0.elapsed() <= budget * 2 / 3 {
-                let mut c2 = cfg.clone();
-                c2.seed = cfg.seed.wrapping_add(0x9E37 * (k + 1));
-                c2.replay = None;
-                found = try_replay(prop, class, site, &cand, &c2, None, true).map(|x| (x, c2));
-                k += 1;
-            }
-            if let Some(((o, v), c2)) = found {
-                scn = cand;
-                cfg = c2;
-                cfg.replay = None;
-                record = o.record.clone();
-                best = (o, v);
-                steps_done += 1;
-                continue 'outer;
-            }
-        }
-        break;
-    }
-    // drop stall plans that are not needed
-    while !cfg.stalls.is_empty() && t0.elapsed() <= budget {
-        let mut c2 = cfg.clone();
-        c2.stalls.pop();
-        match try_replay(prop, class, site, &scn, &c2, Some(&record), false) {
-            Some(x) => {
-                cfg = c2;
-                record = x.0.record.clone();
-                best = x;
-            }
-            None => break,
-        }
-    }
-    // ---- phase 2: schedule shrinking (delta debugging over segments, tolerant replay)
-    let mut segs = sched::segments(&record);
-    let mut chunk = (segs.len() / 2).max(1);
-    while chunk >= 1 && t0.elapsed() <= budget {
-        let mut i = 0;
-        let mut changed = false;
-        while i < segs.len() && t0.elapsed() <= budget {
-            let hi = (i + chunk).min(segs.len());
-            let mut cand: Vec<(u8, usize)> = Vec::with_capacity(segs.len());
-            cand.extend_from_slice(&segs[..i]);
-            cand.extend_from_slice(&segs[hi..]);
-            let rec2 = sched::unsegments(&cand);
-            if let Some(x) = try_replay(prop, class, site, &scn, &cfg, Some(&rec2), false) {
-                // keep what really ran (strict form of the accepted run)
-                record = x.0.record.clone();
-                segs = sched::segments(&record);
-                best = x;
-                changed = true;
-                steps_done += 1;
-            } else {
-                i += chunk;
-            }
-        }
-        if chunk == 1 && !changed {
             break;
         }
-        chunk = if changed { chunk } else { chunk / 2 };
-        if chunk == 0 {
+        // drop stall plans that are not needed
+        while !cfg.stalls.is_empty() && t0.elapsed() <= budget {
+            let mut c2 = cfg.clone();
+            c2.stalls.pop();
+            match try_replay(prop, class, site, &scn, &c2, Some(&record), false) {
+                Some(x) => {
+                    cfg = c2;
+                    record = x.0.record.clone();
+                    best = x;
+                }
+                None => break,
+            }
+        }
+        // ---- phase 2: schedule shrinking (delta debugging over segments, tolerant replay)
+        let mut segs = sched::segments(&record);
+        let mut chunk = (segs.len() / 2).max(1);
+        while chunk >= 1 && t0.elapsed() <= budget {
+            let mut i = 0;
+            let mut changed = false;
+            while i < segs.len() && t0.elapsed() <= budget {
+                let hi = (i + chunk).min(segs.len());
+                let mut cand: Vec<(u8, usize)> = Vec::with_capacity(segs.len());
+                cand.extend_from_slice(&segs[..i]);
+                cand.extend_from_slice(&segs[hi..]);
+                let rec2 = sched::unsegments(&cand);
+                if let Some(x) = try_replay(prop, class, site, &scn, &cfg, Some(&rec2), false) {
+                    // keep what really ran (strict form of the accepted run)
+                    record = x.0.record.clone();
+                    segs = sched::segments(&record);
+                    best = x;
+                    changed = true;
+                    steps_done += 1;
+                } else {
+                    i += chunk;
+                }
+            }
+            if chunk == 1 && !changed {
+                break;
+            }
+            chunk = if changed { chunk } else { chunk / 2 };
+            if chunk == 0 {
+                break;
+            }
+        }
+        // drop empty threads at the end of the list (their indices are not referenced)
+        while scn.threads.last().map(|t| t.prog.is_empty() && !scn.threads.iter().any(|x| x.prog.iter().any(|o| matches!(o, Op::Spawn { thread, .. } if *thread as usize == scn.threads.len() - 1)))).unwrap_or(false) {
+            let mut c = scn.clone();
+            c.threads.pop();
+            match try_replay(prop, class, site, &c, &cfg, Some(&record), false) {
+                Some(x) => {
+                    scn = c;
+                    record = x.0.record.clone();
+                    best = x;
+                }
+                None => break,
+            }
+        }
+        if (scenario_size(&scn), record.len()) == before || t0.elapsed() > budget {
             break;
         }
+        let _ = round;
     }
     // final: strict replay of the stored record must reproduce
     let ok = try_replay(prop, class, site, &scn, &cfg, Some(&record), true);
